@@ -296,10 +296,11 @@ class _Num:
 
 
 class SymInt(_Num):
-    __slots__ = ("t",)
+    __slots__ = ("t", "bounds")
 
-    def __init__(self, t):
+    def __init__(self, t, bounds=None):
         self.t = t
+        self.bounds = bounds      # optional (lo, hi) integer interval known syntactically (merge interpreter)
 
     # -- integer arithmetic
     def _bin(self, o, f, rf, swap=False):
